@@ -18,6 +18,11 @@ package getput
 //@   callsite crypto/sha1.Sum hashes-the-value-or-key-and-salt: $data == r.V || bstr($data) == scat(abytes(r.K), bstr(salt))
 //@   callsite dht/bep44.Verify checks-this-reply: bstr($k) == abytes(r.K) && $salt == salt && r.Seq != nil && $seq == *r.Seq && $bv == r.V && bstr($sig) == abytes(r.Sig)
 //@   callsite select-send:vChan only-values-that-verify: $0.V == r.V && recorded("sha1") == target && ((!$0.Mutable && count("call:crypto/sha1.Sum") == 1) || ($0.Mutable && count("call:crypto/sha1.Sum") == 2 && count("call:dht/bep44.Verify") == 1 && recorded("verified") && r.Seq != nil && $0.Seq == *r.Seq))
+//@   callsite crypto/sha1.Sum the-value-is-hashed-first: count("call:crypto/sha1.Sum") == 0 ==> $data == r.V
+//@   ensures every-reply-has-its-value-hashed: r != nil ==> count("call:crypto/sha1.Sum") >= 1
+//@   ensures every-immutable-value-that-hashes-to-the-target-is-offered: r != nil && count("call:crypto/sha1.Sum") == 1 && recorded("sha1") == target ==> count("select-send:vChan") == 1
+//@   ensures every-mutable-value-that-verifies-is-offered: r != nil && sha1of(bstr(r.V)) != target && r.Seq != nil && sha1of(scat(abytes(r.K), bstr(salt))) == target && edverify(abytes(r.K), signbuf(bstr(salt), *r.Seq, bstr(r.V)), abytes(r.Sig)) ==> count("select-send:vChan") == 1
+//@   ensures one-offer-at-most: count("select-send:vChan") <= 1
 
 // ---- C14: a lookup that was started is stopped on every path ----
 //@ func dht/exts/getput.startGetTraversal
